@@ -14,26 +14,28 @@ import (
 
 // Config controls one harness run.
 type Config struct {
-	Prog         *ssa.Program
-	Entry        *ssa.Function
-	InitPkgs     []*ssa.Package // packages whose init is interpreted (in order)
-	Policy       *Policy
-	LoopFuel     int   // max visits of one basic block per frame activation
-	MaxDepth     int   // max call depth
-	MaxInstr     int64 // max instructions per path
-	MaxPaths     int   // stop after this many paths (0 = unlimited); exceeding => inconclusive
-	QueryMs      int   // solver timeout per query
-	Preemptive   bool  // scheduling points at shared-memory accesses
-	SchedBound   int   // max scheduling decisions with >1 alternative per path
-	CrossCheck   []string // extra solvers for obligation queries
-	Trace        bool
-	FixedInputs  map[string]interface{} // concrete run: label -> value
-	Deadline     time.Time
+	Prog          *ssa.Program
+	Entry         *ssa.Function
+	InitPkgs      []*ssa.Package // packages whose init is interpreted (in order)
+	Policy        *Policy
+	LoopFuel      int      // max visits of one basic block per frame activation
+	MaxDepth      int      // max call depth
+	MaxInstr      int64    // max instructions per path
+	MaxPaths      int      // stop after this many paths (0 = unlimited); exceeding => inconclusive
+	QueryMs       int      // solver timeout per query
+	Preemptive    bool     // scheduling points at shared-memory accesses
+	SchedBound    int      // max scheduling decisions with >1 alternative per path
+	CrossCheck    []string // extra solvers for obligation queries
+	Trace         bool
+	FixedInputs   map[string]interface{} // concrete run: label -> value
+	Deadline      time.Time
 	MaxViolations int
 	// static partition of the path tree across workers: at the k-th fork (k<2) on a path this
 	// worker explores only alternatives j with j % PartCount[k] == PartIndex[k]
 	PartIndex [2]int
 	PartCount [2]int
+	// ForcedSched, when non-nil, fixes the scheduler/timer/select choices in order (engine replay)
+	ForcedSched []int
 }
 
 // Violation is a failed obligation with a concrete witness.
@@ -45,6 +47,7 @@ type Violation struct {
 	Stack     []string               `json:"stack"`
 	Inputs    map[string]interface{} `json:"inputs"`
 	Decisions []int                  `json:"decisions"`
+	Sched     []int                  `json:"sched"`
 	Atoms     []string               `json:"atoms"`
 	Trace     []string               `json:"trace,omitempty"`
 }
@@ -104,18 +107,18 @@ type Exec struct {
 	ghost      map[string]Value
 
 	// tasks
-	tasks     []*task
-	cur       *task
-	killed    bool
-	pathDone  chan struct{}
-	timers    []*timerObj
-	schedUsed int
+	tasks      []*task
+	cur        *task
+	killed     bool
+	pathDone   chan struct{}
+	timers     []*timerObj
+	schedUsed  int
 	envActions []*Closure
 
 	// results
-	Violations []*Violation
-	vioKeys    map[string]bool
-	Stats      Stats
+	Violations    []*Violation
+	vioKeys       map[string]bool
+	Stats         Stats
 	externGlobals map[*ssa.Global]Value
 	externTypes   map[string]types.Type
 	methodCache   map[string]*ssa.Function
@@ -127,6 +130,7 @@ type Exec struct {
 	initTemplate  map[*ssa.Global]Value // contents of globals after package initialisation
 	initHash      uint64
 	skipped       bool
+	schedPos      int
 	known         map[int]*Term
 	simpMemo      map[int]*Term
 }
@@ -256,6 +260,7 @@ func (ex *Exec) runOnePath() {
 	ex.globals = map[*ssa.Global]*Value{}
 	ex.externGlobals = map[*ssa.Global]Value{}
 	ex.pc = nil
+	ex.schedPos = 0
 	ex.known = nil
 	ex.simpMemo = nil
 	ex.dpos = 0
@@ -345,9 +350,25 @@ func (ex *Exec) endPath(reason string) {
 }
 
 // choose returns a value in [0,n) recording a decision; alternatives are all explored.
+func isSchedKind(kind string) bool {
+	return kind == "sched" || kind == "timer" || kind == "select"
+}
+
 func (ex *Exec) choose(alts []int, kind string) int {
 	if len(alts) == 0 {
 		panic("choose: no alternatives")
+	}
+	if ex.cfg.ForcedSched != nil && isSchedKind(kind) {
+		i := ex.schedPos
+		ex.schedPos++
+		if i < len(ex.cfg.ForcedSched) {
+			for _, a := range alts {
+				if a == ex.cfg.ForcedSched[i] {
+					return a
+				}
+			}
+		}
+		return alts[0]
 	}
 	if ex.dpos < len(ex.decisions) {
 		d := ex.decisions[ex.dpos]
@@ -689,6 +710,11 @@ func (ex *Exec) recordViolation(kind, msg string, fr *frame, extra []*Term) {
 	}
 	ex.vioKeys[v.Key()] = true
 	v.Decisions = ex.decisionList()
+	for i := 0; i < ex.dpos && i < len(ex.decisions); i++ {
+		if isSchedKind(ex.decisions[i].kind) {
+			v.Sched = append(v.Sched, ex.decisions[i].taken)
+		}
+	}
 	v.Atoms = append([]string(nil), ex.ts.AtomTable()...)
 	if len(ex.trace) > 60 {
 		v.Trace = append([]string(nil), ex.trace[len(ex.trace)-60:]...)
